@@ -62,6 +62,9 @@ func runC06(p *Prog, r *Report) {
 	if want("C06.7") {
 		ruleBaseLevel(p, r, "C06.7")
 	}
+	if want("C06.18") {
+		ruleWritersCopyKeys(p, r, "C06.18")
+	}
 	if want("C06.17") {
 		ruleLevelsImmutable(p, r, "C06.17")
 	}
